@@ -9,12 +9,6 @@ def b2n (b : Bool) : Nat := if b then 1 else 0
 @[simp] theorem b2n_true : b2n true = 1 := rfl
 @[simp] theorem b2n_false : b2n false = 0 := rfl
 
-theorem wsum_map_clientWrite (f : Act → Nat) (hf : ∀ id, f (.clientWrite id) = 0) (q : List Id) :
-    wsum f (q.map .clientWrite) = 0 := by
-  induction q with
-  | nil => rfl
-  | cons x xs ih => simp [hf, ih]
-
 def TokInv (sys : Sys) : Prop :=
   cnt fF sys.ts + b2n sys.st.fired ≤ 1 ∧
   cnt fF sys.ts + b2n sys.st.onAll + cnt fK sys.ts + sys.st.completions ≤ 1
